@@ -501,7 +501,6 @@ func checkDiffsTo(c *Ctx, r *goan.Rel) {
 	// every caller binds the results positionally; orientation by index is what Classify uses
 }
 
-
 // checkSideMixing: a helper that every other call site feeds from a single spec must not be
 // fed values of both specs at one call site (deviance rule, exact under the side model).
 func checkSideMixing(c *Ctx, r *goan.Rel) {
